@@ -236,6 +236,7 @@ fn one(cfg: &Cfg, out: &mut Out, r: &mut Rng, size_cap: usize, test_repo: &TestR
             let Some(o) = pick_old(r, &recs, &mut plan) else { continue };
             let copies = if (60..70).contains(&kind) { 2 + r.below(2) } else { 1 };
             let mut news = vec![];
+            let had_record = recs.contains_key(&o);
             for _ in 0..copies {
                 counter += 1;
                 let old_ps = w.parents[o].clone();
@@ -260,7 +261,6 @@ fn one(cfg: &Cfg, out: &mut Out, r: &mut Rng, size_cap: usize, test_repo: &TestR
                 // make the run depend on timing
                 let desc = match r.below(10) { _ if copies > 1 || recs.contains_key(&o) => counter,
                     0 if changed || w.desc(o) != 0 => 0, 1 | 2 if changed => w.desc(o), _ => counter };
-                if recs.contains_key(&o) && copies == 1 { plan.dup_rw = true; }
                 let t = make_tree(tx.repo_mut(), &tree);
                 let res = guard(|| tx.repo_mut().rewrite_commit(&w.commits[o]).set_parents(ps.iter().map(|p| w.cid(*p)).collect())
                     .set_description(desc_str(desc)).set_tree(t).write().block_on());
@@ -278,7 +278,9 @@ fn one(cfg: &Cfg, out: &mut Out, r: &mut Rng, size_cap: usize, test_repo: &TestR
                     plan.any_div = true;
                     ops_s.push(format!("d:{o}:{}", show_ids(&news)));
                 } else { plan.dup_rw = true; }
-            } else if copies > 1 { plan.dup_rw = plan.dup_rw || news.len() == 1 && false; }
+            }
+            // a commit that already had a record and is rewritten again leaves its first rewrite visible
+            if had_record && !news.is_empty() { plan.dup_rw = true; }
         } else if kind < 60 {
             let Some(o) = pick_old(r, &recs, &mut plan) else { continue };
             if let Some(Rec::Rw(_)) | Some(Rec::Div(_)) = recs.get(&o) { plan.dup_rw = true; }
@@ -313,6 +315,15 @@ fn one(cfg: &Cfg, out: &mut Out, r: &mut Rng, size_cap: usize, test_repo: &TestR
         }
     }
     let empty = r.below(3); let simplify = r.chance(1, 2); let delete = r.chance(1, 3);
+    finish_case(out, w, tx, St { recs, plan, immutable, empty, simplify, delete, commits_s, heads_s, bms_s, wcs_s, ops_s, n });
+}
+
+struct St { recs: BTreeMap<usize, Rec>, plan: Plan, immutable: Vec<usize>, empty: usize, simplify: bool, delete: bool,
+            commits_s: Vec<String>, heads_s: String, bms_s: String, wcs_s: String, ops_s: Vec<String>, n: usize }
+
+/// runs `rebase_descendants_with_options` on the prepared transaction, records the case, evaluates the oracle
+fn finish_case(out: &mut Out, mut w: World, mut tx: jj_lib::transaction::Transaction, st: St) {
+    let St { recs, plan, immutable, empty, simplify, delete, commits_s, heads_s, bms_s, wcs_s, ops_s, n } = st;
     let options = RebaseOptions {
         empty: [EmptyBehavior::Keep, EmptyBehavior::AbandonNewlyEmpty, EmptyBehavior::AbandonAllEmpty][empty],
         rewrite_refs: RewriteRefsOptions { delete_abandoned_bookmarks: delete },
@@ -441,6 +452,81 @@ fn oracle(out: &mut Out, w: &World, fin: &Arc<ReadonlyRepo>, plan: &Plan, recs: 
     if fails.is_empty() { out.oracle_ok(); } else { let (sig, d) = &fails[0]; fail_once(out, sig, format!("{d} | all: {:?} | C11 {req}", fails.iter().map(|f| f.0).collect::<Vec<_>>())); }
 }
 
+/// Executes a request line (same syntax as the generated ones) on the real code: used for the fixed
+/// regression scenarios below.
+fn scripted(out: &mut Out, test_repo: &TestRepo, req: &str) {
+    let tok: Vec<&str> = req.split(' ').collect();
+    assert!(tok.len() == 8 && tok[0] == "run");
+    let list = |s: &str| -> Vec<usize> { if s == "-" { vec![] } else { s.split(',').map(|x| x.parse().unwrap()).collect() } };
+    let listu = |s: &str| -> Vec<u64> { if s == "-" { vec![] } else { s.split(',').map(|x| x.parse().unwrap()).collect() } };
+    let target = |s: &str| -> Target { s.split(',').map(|x| if x == "x" { None } else { Some(x.parse().unwrap()) }).collect() };
+    let items = |s: &str| -> Vec<String> { if s == "-" { vec![] } else { s.split(';').map(|x| x.to_string()).collect() } };
+    let repo0 = test_repo.repo.clone();
+    let mut w = World::new(repo0.store().root_commit());
+    let mut tx = repo0.start_transaction();
+    let commits_s = items(tok[1]);
+    for c in &commits_s { let f: Vec<&str> = c.split('/').collect(); write_new(tx.repo_mut(), &mut w, &list(f[0]), f[2].parse().unwrap(), &listu(f[3])); }
+    for b in items(tok[3]) { let (n, t) = b.split_once('=').unwrap(); tx.repo_mut().set_local_bookmark_target(RefName::new(&bm_name(n.parse().unwrap())), to_ref_target(&w, &target(t))); }
+    for x in items(tok[4]) { let (n, c) = x.split_once('=').unwrap(); tx.repo_mut().set_wc_commit(ws_name(n.parse().unwrap()), w.cid(c.parse().unwrap())).unwrap(); }
+    let base = tx.commit("init").block_on().unwrap();
+    let (heads_s, bms_s, wcs_s) = show_view(&w, &base);
+    assert_eq!(heads_s, tok[2]);
+    let mut tx = base.start_transaction();
+    let mut recs: BTreeMap<usize, Rec> = BTreeMap::new();
+    let mut plan = Plan { malformed: false, dup_rw: false, any_div: false, key_in_immutable: false };
+    let ops_s = items(tok[5]);
+    for op in &ops_s {
+        let f: Vec<&str> = op.split(':').collect();
+        match f[0] {
+            "n" => { write_new(tx.repo_mut(), &mut w, &list(f[1]), f[2].parse().unwrap(), &listu(f[3])); }
+            "r" => { let o: usize = f[1].parse().unwrap(); let t = make_tree(tx.repo_mut(), &listu(f[4]));
+                if recs.contains_key(&o) { plan.dup_rw = true; }
+                let c = tx.repo_mut().rewrite_commit(&w.commits[o]).set_parents(list(f[2]).iter().map(|p| w.cid(*p)).collect())
+                    .set_description(desc_str(f[3].parse().unwrap())).set_tree(t).write().block_on().unwrap();
+                let id = w.add(c); recs.insert(o, Rec::Rw(id)); }
+            "a" => { let o: usize = f[1].parse().unwrap(); tx.repo_mut().record_abandoned_commit(&w.commits[o]); recs.insert(o, Rec::Ab(w.parents[o].clone())); }
+            "d" => { let o: usize = f[1].parse().unwrap(); let ns = list(f[2]); tx.repo_mut().set_divergent_rewrite(w.cid(o), ns.iter().map(|i| w.cid(*i)));
+                recs.insert(o, Rec::Div(ns)); plan.any_div = true; plan.dup_rw = false; }
+            "s" => { let o: usize = f[1].parse().unwrap(); let nn: usize = f[2].parse().unwrap(); tx.repo_mut().set_rewritten_commit(w.cid(o), w.cid(nn)); recs.insert(o, Rec::Rw(nn)); plan.malformed = true; }
+            "b" => { tx.repo_mut().set_local_bookmark_target(RefName::new(&bm_name(f[1].parse().unwrap())), to_ref_target(&w, &target(f[2]))); }
+            "w" => { tx.repo_mut().set_wc_commit(ws_name(f[1].parse().unwrap()), w.cid(f[2].parse().unwrap())).unwrap(); }
+            _ => panic!("bad script op {op}"),
+        }
+    }
+    let o: Vec<usize> = list(tok[6]);
+    let n = commits_s.len();
+    plan.key_in_immutable = tok[7] != "-";
+    finish_case(out, w, tx, St { recs, plan, immutable: list(tok[7]), empty: o[0], simplify: o[1] != 0, delete: o[2] != 0, commits_s, heads_s, bms_s, wcs_s, ops_s, n });
+}
+
+/// Fixed scenarios run before the random stream: the textbook cases of the property and the minimal
+/// reproducers of the two known findings.
+const FIXED: &[&str] = &[
+    // rewrite the middle of a chain: descendant rebased, bookmark and working copy follow
+    "run 0/1/1/1;1/2/2/1,2;2/3/3/1,2,3 3 1=2;2=3 1=3 r:2:1:102:1,2 0,0,0 -",
+    // abandon the middle of a chain: child rebased onto the grandparent, bookmark moves to the parent / is deleted
+    "run 0/1/1/1;1/2/2/1,2;2/3/3/1,2,3 3 1=2 1=3 a:2 0,0,0 -",
+    "run 0/1/1/1;1/2/2/1,2;2/3/3/1,2,3 3 1=2 1=3 a:2 0,0,1 -",
+    // working copy on an abandoned commit: recreated on the parent
+    "run 0/1/1/1;1/2/2/1,2 2 - 1=2;2=2 a:2 0,0,0 -",
+    // divergent rewrite: bookmark becomes conflicted, descendants stay
+    "run 0/1/1/1;1/2/2/1,2 2 1=1 1=2 r:1:0:101:1;r:1:0:102:1;d:1:3,4 0,0,0 -",
+    // rebased commit becomes empty: the three empty behaviours
+    "run 0/1/1/1;1/2/2/1,2 2 - 1=2 r:1:0:101:1,2 0,0,0 -",
+    "run 0/1/1/1;1/2/2/1,2 2 - 1=2 r:1:0:101:1,2 1,0,0 -",
+    "run 0/1/1/1;1/2/2/1,2 2 - 1=2 r:1:0:101:1,2 2,0,0 -",
+    // merge whose parents collapse: simplify_ancestor_merge off / on
+    "run 0/1/1/1;1/2/2/1,2;1,2/3/3/1,2,3 3 - 1=3 r:2:0:102:2 0,0,0 -",
+    "run 0/1/1/1;0/2/2/2;1,2/3/3/1,2,3 3 - 1=3 r:2:1:102:1,2 0,1,0 -",
+    // immutable child of a rewritten commit stays
+    "run 0/1/1/1;1/2/2/1,2;2/3/3/1,2,3 3 - 1=3 r:1:0:101:1 0,0,0 2",
+    // KNOWN FINDING rewrite:orphan-rebased-before-its-parent — 1←2←3; 1→4; 2→5→6 (both still on 1):
+    // 3 is rebased onto 6 before 6 itself is rebased onto 4
+    "run 0/1/1/1;1/2/2/1,2;2/3/3/1,2,3 3 - - r:1:0:101:1;r:2:1:102:1,2;r:5:1:103:1,2 0,0,0 -",
+    // KNOWN FINDING rewrite:panic-wc-edit-root — working copy on 1; 1→2, then 2 abandoned (parent = root)
+    "run 0/1/1/1 1 - 1=1 r:1:0:102:-;a:2 0,0,0 -",
+];
+
 pub fn use_fast_tmp() {
     // the test repositories fsync every object; on a disk-backed /tmp that is 95 % of the run time
     if std::env::var_os("TMPDIR").is_none() && std::fs::metadata("/dev/shm").map(|m| m.is_dir()).unwrap_or(false) {
@@ -454,6 +540,7 @@ pub fn run(cfg: &Cfg, out: &mut Out) {
     let mut r = cfg.rng(11);
     let total = cfg.n(2500, 40_000);
     let mut test_repo = TestRepo::init();
+    for f in FIXED { scripted(out, &test_repo, f); }
     for k in 0..total {
         // sizes grow: the first disagreement is near-minimal
         let cap = if k < total / 10 { 3 } else if k < total / 3 { 5 } else { 9 };
